@@ -3,7 +3,6 @@ Spec: Distribution.tla (precise operators), DistributionProps.tla (monitors), MC
 exhaustive model, step monitors on every transition), Trace_Distribution (TLC trace validation)."""
 import json
 import vlib
-from props import _mcfast
 
 # the finite domain: must equal the CONSTANTS of specs/MC_Distribution*.cfg
 DOMAIN = {
@@ -56,7 +55,7 @@ def run(ctx):
         return ctx.finish("exploration", "replay of one recorded case", exhaustive=False)
     dom = DOMAIN["quick" if ctx.quick else "thorough"]
     # 1. the design satisfies the monitors on every transition of the bounded model
-    r = _mcfast.model_check(ctx, "MC_Distribution", cfg=dom["cfg"], workers=8,
+    r = ctx.model_check("MC_Distribution", coverage=False, cfg=dom["cfg"], workers=8,
                             timeout=600 if ctx.quick else 1500)
     if r.depth < 2 or r.generated <= r.distinct:
         raise vlib.ToolError("vacuity: no distribution step explored in the bounded model")
